@@ -33,6 +33,7 @@ type Data struct {
 	Family string          `json:"family"` // which field family the generator varied
 	Val    json.RawMessage `json:"val"`    // encoding/json form of the Go value
 	Pert   *Pert           `json:"pert,omitempty"`
+	Expr   *ExprCase       `json:"expr,omitempty"` // family decode-expression: Type and Val unused
 }
 
 var counters engine.Counter
@@ -81,6 +82,11 @@ func equalNorm(got, want reflect.Value) bool {
 			g, w := got.Interface().(cty.Value), want.Interface().(cty.Value)
 			if g == cty.NilVal || w == cty.NilVal {
 				return g == cty.NilVal && w == cty.NilVal
+			}
+			if !w.IsKnown() {
+				// an unknown result (only in the expression cases): same type;
+				// refinements of unknown values are not specified
+				return !g.IsKnown() && g.Type().Equals(w.Type())
 			}
 			c, err := convert.Convert(g, w.Type())
 			if err != nil {
@@ -294,7 +300,7 @@ func classFor(clause string, d Data, doc *Body) string {
 	if (clause == "generated-unparseable" || clause == "encode-panic") && firstKeyFor(doc) {
 		return "c16.generated-unparseable.map-first-key-for"
 	}
-	if c := strings.Replace(clause, "-merged", "", 1); (c == "json-template-value-mismatch" || c == "hclsimple-json-template-value-mismatch") && loneCRThenDoubledIntroducer(doc) {
+	if c := strings.Replace(strings.Replace(clause, "-merged", "", 1), "-comments", "", 1); (c == "json-template-value-mismatch" || c == "hclsimple-json-template-value-mismatch") && loneCRThenDoubledIntroducer(doc) {
 		return "c16.json-template-value-mismatch.lone-cr-then-doubled-introducer"
 	}
 	cls := "c16." + clause + "." + d.Family
@@ -309,6 +315,17 @@ func classFor(clause string, d Data, doc *Body) string {
 		// some string of the value (label, attribute value, element, key)
 		// contains a non-ASCII rune that is not unicode.IsPrint
 		cls += ".nonprint-multibyte-rune"
+	}
+	// a label / a string in expression position that is exactly one of the
+	// strings with a meaning of their own in one of the two syntaxes
+	for _, sp := range syntaxSpecial {
+		eq := func(s string) bool { return s == sp.S }
+		if anyString(doc, eq) {
+			if anyExprString(doc, eq) {
+				return cls + ".string-" + sp.Slug
+			}
+			return cls + ".label-" + sp.Slug
+		}
 	}
 	return cls
 }
@@ -445,6 +462,7 @@ func judgeRoundTrip(d Data, rt reflect.Type, vp reflect.Value) engine.Outcome {
 	for _, o := range []jsonOpts{
 		{tmpl: false, arrays: false}, {tmpl: false, arrays: true}, {tmpl: true, arrays: false}, {tmpl: true, arrays: true},
 		{tmpl: false, arrays: false, merged: true}, {tmpl: false, arrays: true, merged: true}, {tmpl: true, arrays: false, merged: true}, {tmpl: true, arrays: true, merged: true},
+		{tmpl: false, arrays: false, comments: true}, {tmpl: true, arrays: true, merged: true, comments: true},
 	} {
 		if o.tmpl && bomUnspecified {
 			continue
@@ -463,6 +481,9 @@ func judgeRoundTrip(d Data, rt reflect.Type, vp reflect.Value) engine.Outcome {
 		}
 		if o.merged {
 			mode += "-merged"
+		}
+		if o.comments {
+			mode += "-comments"
 		}
 		f, diags := hcljson.Parse(src, "x.json")
 		if diags.HasErrors() {
@@ -603,14 +624,105 @@ func judgePert(d Data, rt reflect.Type, vp reflect.Value) engine.Outcome {
 
 func judge(c engine.Case) engine.Outcome {
 	d := c.Data.(Data)
+	if d.Expr != nil {
+		return judgeDecodeExpression(*d.Expr)
+	}
 	rt, vp, err := load(d)
 	if err != nil {
 		panic("harness: cannot load case: " + err.Error())
+	}
+	if d.Pert != nil && d.Pert.Op == "expr" {
+		return judgeExprPert(d, rt, vp)
 	}
 	if d.Pert != nil {
 		return judgePert(d, rt, vp)
 	}
 	return judgeRoundTrip(d, rt, vp)
+}
+
+// ---- oracle 3b: an attribute given as an expression over an EvalContext -------
+
+// judgeExprPert: the document of the value with one attribute replaced by an
+// expression of exprTable, decoded with exprCtx through gohcl.DecodeBody and
+// hclsimple.Decode. Expectation: see exprs.go.
+func judgeExprPert(d Data, rt reflect.Type, vp reflect.Value) engine.Outcome {
+	p := *d.Pert
+	_, doc := toBody(vp.Elem())
+	target, ok := p.apply(doc)
+	if !ok || target == nil || !target.fv.IsValid() {
+		return engine.Pass("")
+	}
+	e := exprTable[p.Arg]
+	var src []byte
+	name := "x.hcl"
+	if p.Syntax == "json" {
+		src, name = renderJSON(doc, jsonOpts{tmpl: true}), "x.json"
+	} else {
+		src = renderNative(doc)
+	}
+	ftype := target.fv.Type()
+	where := fmt.Sprintf("attribute %q (Go type %s) = %s", target.Name, ftype, e.Src)
+	cls := func(clause string) string {
+		return fmt.Sprintf("c16.%s.%s.into-%s.%s", clause, e.valueClass(), goKind(ftype), p.Syntax)
+	}
+	wantErr, want, judged := expectDecode(e, ftype)
+	if judged && !wantErr {
+		target.fv.Set(want) // the rest of the value is unaffected
+	}
+	unspecified := false
+	for _, via := range []string{"DecodeBody", "hclsimple"} {
+		fresh := reflect.New(rt)
+		var isErr bool
+		var msg string
+		if r := func() (r any) {
+			defer func() { r = recover() }()
+			if via == "hclsimple" {
+				if err := hclsimple.Decode(name, src, exprCtx(), fresh.Interface()); err != nil {
+					isErr, msg = true, err.Error()
+				}
+				return nil
+			}
+			var f *hcl.File
+			var pdiags hcl.Diagnostics
+			if p.Syntax == "json" {
+				f, pdiags = hcljson.Parse(src, name)
+			} else {
+				f, pdiags = hclsyntax.ParseConfig(src, name, hcl.InitialPos)
+			}
+			if pdiags.HasErrors() {
+				isErr, msg = true, "parse: "+pdiags.Error()
+				return nil
+			}
+			if diags := gohcl.DecodeBody(f.Body, exprCtx(), fresh.Interface()); diags.HasErrors() {
+				isErr, msg = true, diags.Error()
+			}
+			return nil
+		}(); r != nil {
+			return engine.Fail(cls("decode-panic.expr"),
+				"type %s, %s: %s with an EvalContext panicked: %v\n%s", d.Type, where, via, r, src)
+		}
+		counters.Add("perturbed_expr", 1)
+		if !judged {
+			unspecified = true
+			continue
+		}
+		switch {
+		case wantErr && !isErr:
+			return engine.Fail(cls("expr-problem-accepted"), "type %s, %s: %s reports no error and gives %s; the expression result (%s) cannot be held by the field\n%s", d.Type, where, via, show(fresh), e.valueClass(), src)
+		case !wantErr && isErr:
+			return engine.Fail(cls("expr-decode-error"), "type %s, %s: %s reports: %s\n%s", d.Type, where, via, msg, src)
+		case !wantErr && !equalNorm(fresh, vp):
+			return engine.Fail(cls("expr-value-mismatch"), "type %s, %s: %s gives %s, want %s\n%s", d.Type, where, via, show(fresh), show(vp), src)
+		}
+	}
+	if unspecified {
+		counters.Add("expr_outcome_unspecified", 1)
+		return engine.Skip()
+	}
+	if wantErr {
+		return engine.Pass(fmt.Sprintf("%s/expr%v/%s/%s/error", d.Type, p.Path, e.Src, p.Syntax))
+	}
+	return engine.Pass(fmt.Sprintf("%s/expr%v/%s/%s/%s", d.Type, p.Path, e.Src, p.Syntax, showGo(target.fv)))
 }
 
 // ---- shrinking ---------------------------------------------------------------
@@ -676,6 +788,9 @@ func shrinkSite(v reflect.Value, n *int) bool {
 
 func shrink(c engine.Case) []engine.Case {
 	d := c.Data.(Data)
+	if d.Expr != nil {
+		return nil
+	}
 	var out []engine.Case
 	for k := 0; k < 200; k++ {
 		_, vp, err := load(d)
